@@ -52,6 +52,12 @@ META["C15"] = dict(
   note="Trusted: simref/gr4jref.go (about 100 lines written from the paper, sharing no code with the repository).",
   technique="differential property-based testing (rapid) against an independent reference implementation")
 
+META["C11"] = dict(
+  text="Invariant property tests of the three routing models over generated parameters and series: per-step water balance, non-negativity and the storage-discharge relation for StorageRouting on every exit path the generator reaches, volume conservation and steady-state for Muskingum including lateral inflow, exact delay semantics for Lag for every lag/length combination. Two recorded findings about the storage-discharge relation are excluded by narrow predicates. Exploration.",
+  design_ref="DESIGN.md section 4, C11",
+  note="Tolerances derive from the model's own massBalanceLimit (1e-3 m^3). The balance is asserted everywhere, also inside the findings.",
+  technique="property-based testing (rapid) with conservation invariants and an independent bisection of the storage relation")
+
 import os, sys
 sys.path.insert(0, os.path.dirname(os.path.abspath(__file__)))
 from checks_config import CHECKS
